@@ -19,6 +19,7 @@ type c18Case struct {
 	Reg   string      `json:"reg"`   // vi register
 	K     []sess.Step `json:"k"`     // the recorded keys, one token per step
 	// an earlier, empty recording on the same shell, then keys typed before the judged recording
+	Multi    bool        `json:"multi,omitempty"` // AcceptMultiline set: RET on a line ending with a backslash inserts a newline
 	EmptyRec bool        `json:"empty_rec,omitempty"`
 	Pre      []sess.Step `json:"pre,omitempty"`
 }
@@ -47,6 +48,7 @@ func c18Gen(r *rand.Rand, tier string, idx int) any {
 	c.Style = pick(r, []string{"emacs", "emacs", "vi"})
 	c.Mode = c.Style
 	c.Start = pick(r, []string{"", "hello world", "one two three four", "a(b)c 'q' end", "say \"hello\" and \"world\" now (x) 'y z' end"})
+	c.Multi = r.Intn(4) == 0
 	if r.Intn(5) == 0 {
 		c.EmptyRec = true
 		for i := r.Intn(3); i > 0; i-- {
@@ -64,6 +66,15 @@ func c18Gen(r *rand.Rand, tier string, idx int) any {
 			switch r.Intn(10) {
 			case 0, 1, 2, 3:
 				add(pick(r, c18Printable), "text")
+			case 5:
+				if c.Multi {
+					// a Return refused by AcceptMultiline: a newline is inserted, K goes on
+					add("\x05", "key") // at the end of the line, so that the Return is refused
+					add("\\", "text")
+					add("\r", "key")
+					break
+				}
+				add(pick(r, c18EmacsKeys), "key")
 			case 4:
 				// quoted-insert + key (the argument key in its own read)
 				add("\x11", "quoted-insert")
@@ -98,6 +109,11 @@ func c18Gen(r *rand.Rand, tier string, idx int) any {
 			}
 			add(st, "insert")
 			add(pick(r, c18Printable), "text")
+			if c.Multi && st == "A" && r.Intn(2) == 0 {
+				add("\\", "text")
+				add("\r", "key")
+				add("z", "text")
+			}
 			if r.Intn(3) == 0 {
 				add(pick(r, []string{"\x01", "\x05", "\x17", "\x7f"}), "key")
 			}
@@ -130,7 +146,13 @@ func c18Gen(r *rand.Rand, tier string, idx int) any {
 }
 
 func c18Session(env *fw.Env, c *c18Case, replay bool) (*sess.Result, []sess.Step) {
-	s := sess.New(env.T, env.Scratch, c.cfg())
+	cfg := c.cfg()
+	if c.Multi {
+		cfg.Setup = func(s *sess.Session) {
+			s.Sh.AcceptMultiline = func(l []rune) bool { return len(l) == 0 || l[len(l)-1] != '\\' }
+		}
+	}
+	s := sess.New(env.T, env.Scratch, cfg)
 	defer s.Close()
 	var plan []sess.Step
 	add := func(w, tag string) { plan = append(plan, sess.Step{W: w, Tag: tag}) }
@@ -179,7 +201,7 @@ func c18Run(env *fw.Env, raw json.RawMessage) fw.Outcome {
 	var c c18Case
 	unmarshal(raw, &c)
 	var o fw.Out
-	ctx := fmt.Sprintf("style=%s start=%q reg=%q empty-recording-first=%v pre=%v K=%v", c.Style, c.Start, c.Reg, c.EmptyRec, qsteps(c.Pre), qsteps(c.K))
+	ctx := fmt.Sprintf("style=%s multiline=%v start=%q reg=%q empty-recording-first=%v pre=%v K=%v", c.Style, c.Multi, c.Start, c.Reg, c.EmptyRec, qsteps(c.Pre), qsteps(c.K))
 	resA, planA := c18Session(env, &c, false)
 	if !stdFailures(&o, resA, ctx+" session=retype") {
 		o.O.Sample = map[string]any{"ctx": ctx}
@@ -258,7 +280,7 @@ func init() {
 		ID:        "C18",
 		Level:     "exploration",
 		NeedsTerm: true,
-		Rule: "differential pairs of sessions: A = start text, then the key script K typed twice; B = start text, start recording, K, stop recording, replay (Emacs: C-x ( K C-x ) C-x e; Vi: q<r> K q @<r> for 10 registers, K starting and ending in command mode, ESC in its own read). K = 1-12 tokens: printable text incl. quotes, backslashes and text that looks like escapes (\\e, \\C-a), control keys, ESC-prefixed keys, CSI arrows/Home/End/Delete, quoted-insert + key, digit arguments, Vi commands with counts and argument keys, operators with text objects and surround characters (di\" da( yi'), named registers; one case in five first makes an empty recording on the same shell and types a few keys; oracle: the final buffer texts of A and B are equal. " +
+		Rule: "differential pairs of sessions: A = start text, then the key script K typed twice; B = start text, start recording, K, stop recording, replay (Emacs: C-x ( K C-x ) C-x e; Vi: q<r> K q @<r> for 10 registers, K starting and ending in command mode, ESC in its own read). K = 1-12 tokens: printable text incl. quotes, backslashes and text that looks like escapes (\\e, \\C-a), control keys, ESC-prefixed keys, CSI arrows/Home/End/Delete, quoted-insert + key, digit arguments, Vi commands with counts and argument keys, operators with text objects and surround characters (di\" da( yi'), named registers; one case in four has AcceptMultiline set and K may contain a Return that is refused (a line ending with a backslash: a newline is inserted and K goes on); one case in five first makes an empty recording on the same shell and types a few keys; oracle: the final buffer texts of A and B are equal. " +
 			"distinct non-trivial = distinct (style, set of key kinds in K, length class) tuples",
 		Assumptions: []string{"macro keys are ASCII (non-ASCII runes in macros are truncated to bytes by the key queue: not exercised)"},
 		N: func(tier string) int {
